@@ -1,7 +1,9 @@
 package main
 
 // Facts/Rfc822.lean (C13): the value of ids.InternalIDKey and every call site of
-// rfc822.SetHeaderValue / SetHeaderValueNoMemCopy outside the rfc822 package with the key it passes.
+// rfc822.SetHeaderValue / SetHeaderValueNoMemCopy outside the rfc822 package with the key it passes; the
+// parsers of a partial's numbers; the string functions rfc822.NewHeader / Header.Fields / Header.FieldsNot
+// normalise field names with.
 
 import (
 	"fmt"
@@ -165,8 +167,67 @@ func factsRfc822(c *factsCtx, outdir string) error {
 			}
 		}
 	}
+	// --- how header field names are normalised for comparison: the standard-library string functions called in
+	// rfc822.NewHeader (the key of the `keys` index / mapKey), Header.Fields and Header.FieldsNot (the requested names)
+	type foldSite struct {
+		fn    string
+		calls []string
+	}
+	var foldSites []foldSite
+	for _, f := range c.parseDir("rfc822") {
+		for _, d := range f.Decls {
+			fd, ok := d.(*ast.FuncDecl)
+			if !ok || fd.Body == nil {
+				continue
+			}
+			name := fd.Name.Name
+			recv := ""
+			if fd.Recv != nil && len(fd.Recv.List) == 1 {
+				t := fd.Recv.List[0].Type
+				if st, ok := t.(*ast.StarExpr); ok {
+					t = st.X
+				}
+				recv = identLit(t)
+			}
+			if !((recv == "" && name == "NewHeader") || (recv == "Header" && (name == "Fields" || name == "FieldsNot"))) {
+				continue
+			}
+			seen := map[string]bool{}
+			ast.Inspect(fd.Body, func(n ast.Node) bool {
+				if call, ok := n.(*ast.CallExpr); ok {
+					q := calleeQualified(call)
+					for _, pkg := range []string{"strings.", "bytes.", "textproto.", "unicode.", "cases.", "mime."} {
+						if strings.HasPrefix(q, pkg) {
+							seen[q] = true
+						}
+					}
+				}
+				return true
+			})
+			var calls []string
+			for q := range seen {
+				calls = append(calls, q)
+			}
+			sort.Strings(calls)
+			foldSites = append(foldSites, foldSite{name, calls})
+		}
+	}
+	sort.Slice(foldSites, func(i, j int) bool { return foldSites[i].fn < foldSites[j].fn })
 	var b strings.Builder
 	b.WriteString("namespace Gluon.Facts\n\n")
+	b.WriteString("/-- the strings / bytes / textproto / unicode functions called in rfc822.NewHeader, Header.Fields and\n    Header.FieldsNot (how field names are normalised for comparison) -/\n")
+	b.WriteString("def headerNameCalls : List (String × List String) := [")
+	for i, fsite := range foldSites {
+		if i > 0 {
+			b.WriteString(", ")
+		}
+		var qs []string
+		for _, q := range fsite.calls {
+			qs = append(qs, leanStr(q))
+		}
+		fmt.Fprintf(&b, "(%s, [%s])", leanStr(fsite.fn), strings.Join(qs, ", "))
+	}
+	b.WriteString("]\n\n")
 	fmt.Fprintf(&b, "/-- largest value rfcparser.ParseNumber accepts (`none` = no `number > math.MaxUint32` rejection found) -/\ndef parseNumberMax : Option Nat := %s\n\n", numberMax)
 	fmt.Fprintf(&b, "/-- the functions handleBodyFetchAttribute reads `<offset.count>` with -/\ndef partialOffsetParser : String := %s\ndef partialCountParser : String := %s\n\n", leanStr(offsetParser), leanStr(countParser))
 	fmt.Fprintf(&b, "/-- ParseNZNumber calls ParseNumber / rejects `num <= 0` -/\ndef nzNumberUsesParseNumber : Bool := %v\ndef nzNumberRejectsZero : Bool := %v\n\n", nzUsesParseNumber, nzRejectsZero)
